@@ -8,7 +8,8 @@ use vcore::findings::Findings;
 use vcore::tschema::{MsgType, SDoc};
 use vrt::gen::Entry;
 
-pub mod c02;
+pub mod more;
+pub mod rt;
 pub mod util;
 
 pub struct GCtx {
@@ -19,9 +20,34 @@ pub struct GCtx {
     /// unit key -> (rust path -> entry)
     pub table: BTreeMap<String, BTreeMap<String, Entry>>,
     pub replay: Option<serde_json::Value>,
+    /// journaled-worker support: cases with an index below `skip` are not executed again
+    pub skip: u64,
+    pub counter: std::cell::Cell<u64>,
+}
+
+/// Written before every case that may take the process down (allocation failure, memory
+/// unsafety): the orchestrator attributes a death to the journaled case.
+pub fn journal(ctx: &GCtx, prop: &str, rec: &RefCell<Recorder>, case: &serde_json::Value) {
+    use std::io::Write;
+    let path = vcore::evidence::verif_root().join("work").join(format!("journal-{}.json", prop));
+    let (ev, nt) = {
+        let r = rec.borrow();
+        (r.evaluations, r.distinct_nontrivial())
+    };
+    let body = serde_json::json!({"index": ctx.counter.get(), "evaluations": ev, "distinct_nontrivial": nt, "case": case});
+    if let Ok(mut f) = std::fs::File::create(&path) {
+        let _ = f.write_all(serde_json::to_string(&body).unwrap().as_bytes());
+    }
 }
 
 impl GCtx {
+    /// Journaled-worker protocol: every dangerous case gets an index; after a restart the cases
+    /// up to the one that killed the previous process are skipped.
+    pub fn skip_case(&self) -> bool {
+        let n = self.counter.get() + 1;
+        self.counter.set(n);
+        n <= self.skip
+    }
     /// Rust path (below the unit's wrapper module) of a message type.
     pub fn path_of(doc: &SDoc, t: &MsgType) -> String {
         let mut p = doc.module_path(t.file);
@@ -51,6 +77,7 @@ pub fn main(table: Vec<Entry>) -> i32 {
     let id = args[1].clone();
     let mut tier = Tier::Quick;
     let mut replay = None;
+    let mut side: Option<String> = None;
     let mut i = 2;
     while i < args.len() {
         match args[i].as_str() {
@@ -59,6 +86,10 @@ pub fn main(table: Vec<Entry>) -> i32 {
                 if args.get(i).map(|s| s.as_str()) == Some("thorough") {
                     tier = Tier::Thorough;
                 }
+            }
+            "--side" => {
+                i += 1;
+                side = Some(args[i].clone());
             }
             "--replay" => {
                 i += 1;
@@ -74,10 +105,29 @@ pub fn main(table: Vec<Entry>) -> i32 {
     for e in table {
         map.entry(e.unit.to_string()).or_default().insert(e.path.to_string(), e);
     }
-    let ctx = GCtx { tier, seed, findings: Findings::load(), corpus: thrift_corpus(seed, tier), table: map, replay };
+    let ctx = GCtx { tier, seed, findings: Findings::load(), corpus: thrift_corpus(seed, tier), table: map, replay, skip: std::env::var("VERIF_SKIP").ok().and_then(|s| s.parse().ok()).unwrap_or(0), counter: std::cell::Cell::new(0) };
     vcore::evidence::quiet_panics();
+    if let Some(k) = side {
+        if id == "C09" {
+            return more::c09_side_child(&ctx);
+        }
+        let spec = match id.as_str() {
+            "C08" => rt::c08(),
+            "C13" => rt::c13(),
+            _ => return 2,
+        };
+        return rt::side_child(&ctx, &spec, &k);
+    }
     match id.as_str() {
-        "C02" => c02::run(&ctx),
+        "C02" => rt::run(&ctx, &rt::c02()),
+        "C04" => rt::run(&ctx, &rt::c04()),
+        "C08" => rt::run(&ctx, &rt::c08()),
+        "C13" => rt::run(&ctx, &rt::c13()),
+        "C09" => more::c09(&ctx),
+        "C11" => more::c11(&ctx),
+        "C12" => more::c12(&ctx),
+        "C19" => more::c19(&ctx),
+        "C20" => more::c20(&ctx),
         o => {
             eprintln!("gent: unknown check {}", o);
             2
